@@ -90,10 +90,10 @@ def show(line, verdict):
     print("=" * 100); print("check", cid, "verdict:", verdict)
     bits = p.next()
     print("opts:", [OPT[i] for i in range(9) if bits >> i & 1])
-    if cid == "1701":
+    if cid in ("1701", "1704"):
         print("impl:", ["native", "portable"][p.next()])
     print("struct", ty(p, 0))
-    if cid == "1701":
+    if cid in ("1701", "1704"):
         nv = p.next()
         for _ in range(nv):
             k = p.next(); key = txt(p.next()); v = txt(p.next())
@@ -107,6 +107,14 @@ def show(line, verdict):
         print("jbody:", txt(p.next()))
         ec = p.next(); ob = p.next()
         print("err class:", ec); print("out:", show_thrift(ob) if ec == 0 else ob.hex())
+    elif cid == "1705":
+        inb = p.next(); print("in:", show_thrift(inb))
+        print("err class:", p.next(), "status:", p.next())
+        for _ in range(p.next()):
+            print("  cookie", txt(p.next()), "=", txt(p.next()))
+        for _ in range(p.next()):
+            print("  header", txt(p.next()), "=", txt(p.next()))
+        print("raw body set:", p.next())
     else:
         inb = p.next(); print("in:", show_thrift(inb))
         print("err class:", p.next(), "json ok:", p.next())
@@ -122,7 +130,7 @@ def show(line, verdict):
     if verdict.startswith("bad"):
         vt = verdict.split()
         det = [fld(x) for x in vt[2:]]
-        print("expected:", [show_thrift(d) if isinstance(d, bytes) and cid == "1701" else (txt(d) if isinstance(d, bytes) else d) for d in det])
+        print("expected:", [show_thrift(d) if isinstance(d, bytes) and cid in ("1701", "1704") else (txt(d) if isinstance(d, bytes) else d) for d in det])
 
 def main():
     want = "bad"; n = 5; cid = None; skip = 0
